@@ -201,8 +201,15 @@ structure View where
   segs : List ArgRows
 deriving Inhabited
 
+/-- `include_readouts=True`: `for name, ro in self._readouts.items(): ro.calculate_inpl(name, args)` on the
+    argument dict of one time point, in declaration order (a readout may use an earlier readout) -/
+def withReadouts (c : Content) (a : List (Name × Rat)) : Except Err (List (Name × Rat)) :=
+  c.readouts.foldlM (fun acc kf => do
+    let v ← kf.2.calc acc
+    pure ((kf.1, v) :: acc)) a
+
 /-- one iteration of `_compute_args`: `model.update_parameters(p)` then
-    `get_args_time_course(variables=res)` -/
+    `get_args_time_course(variables=res, ..., include_readouts=True)` -/
 def viewSeg (nan : Bool) (c : Content) (seg : Seg) : Except Err (Content × ArgRows) :=
   match updatePars c seg.pars with
   | .error e => .error e
@@ -211,7 +218,8 @@ def viewSeg (nan : Bool) (c : Content) (seg : Seg) : Except Err (Content × ArgR
     else
       match seg.rows.mapM (fun ty => do
           let a ← getArgs c' (some ((omKeys c'.vars).zip ty.2)) ty.1
-          pure (ty.1, a)) with
+          let a' ← withReadouts c' a
+          pure (ty.1, a')) with
       | .error e => .error e
       | .ok rows => .ok (c', rows)
 
